@@ -71,6 +71,7 @@ OneBits == 1065353216            \* 0x3F800000 = 1.0f
 MaxCode(depth) == IF depth = 8 THEN 255 ELSE 65535
 DecodeOK(e) ==
     LET N == IF e.depth = 8 THEN N8 ELSE N16 IN
+    /\ "panic" \notin DOMAIN e                                    \* every code decodes (in every process history)
     /\ e.code = 0 => e.bits = 0                                   \* Zero
     /\ e.code = MaxCode(e.depth) => e.bits = OneBits              \* One
     /\ e.code > 0 => e.bits > e.prev                              \* StrictMono
